@@ -39,9 +39,10 @@ th.elaborate(); th.load(img)
 th.src.msgs.clear(); th.src.msgs.extend(Bits32(v) for v in inputs)
 got = []
 th.sink.msgs.clear() if hasattr(th.sink.msgs, 'clear') else None; th.sink.msgs.extend(Bits32(v) for v in outs)
-th.apply(DefaultPassGroup()); th.sim_reset()
+th.apply(DefaultPassGroup())
 n = 0
 try:
+  th.sim_reset()
   while not th.done() and n < %(maxcyc)d:
     th.sim_tick(); n += 1
 except Exception as e:
